@@ -131,8 +131,8 @@ def generate(shim):
             cur = [c, c, v]
     if cur:
         ccc_rows.append(tuple(cur))
-    # characters with ccc ≠ 0 in the crate that are unassigned in the reference
-    new_ccc = [(lo, hi, v) for lo, hi, v in _ranges(d["ccc"]) if not all(assigned(c) for c in range(lo, hi + 1))]
+    # characters with ccc ≠ 0 in the crate that are unassigned in the reference: (c, ccc)
+    new_ccc = [(c, v) for lo, hi, v in _ranges(d["ccc"]) for c in range(lo, hi + 1) if not assigned(c)]
     body = "namespace RbModel.Gen.NormRef\n"
     body += f"-- CPython unicodedata, Unicode {uv}\n"
     body += f"def unicodeVersion : String := \"{uv}\"\n"
@@ -147,8 +147,8 @@ def generate(shim):
     body += chunked_list("newComp", "Nat × Nat", pairs(new_comp))
     body += "-- Canonical_Combining_Class ≠ 0: (lo, hi, ccc)\n"
     body += chunked_list("cccRanges", "Nat × Nat × Nat", triples(ccc_rows))
-    body += "-- ranges of the crate's ccc table that contain a character unassigned in this Unicode version\n"
-    body += chunked_list("newCcc", "Nat × Nat × Nat", triples(new_ccc))
+    body += "-- characters with a non-zero class in the crate that are unassigned in this Unicode version: (c, ccc)\n"
+    body += chunked_list("newCcc", "Nat × Nat", pairs(new_ccc))
     body += "end RbModel.Gen.NormRef\n"
     if write_if_changed("NormRef.lean", body):
         ch.append("NormRef.lean")
